@@ -96,6 +96,7 @@ type c28Req struct {
 	MD        map[string]string `json:"md,omitempty"`
 	Payload   []byte            `json:"payload,omitempty"`
 	Gzip      bool              `json:"gzip,omitempty"` // grpc message compression
+	WatchdogMs int              `json:"watchdog_ms,omitempty"` // 0 = the batch's
 	Class     string            `json:"class"`          // route / content / encoding / body class
 	Desc      string            `json:"desc"`
 }
@@ -250,12 +251,13 @@ func (n *c28Node) startSink() error {
 			fmt.Fprintf(w, `{"api_key_access":{"events":true},"team":{"slug":"verif"},"environment":{"slug":%q,"name":%q},"id":"kid%d"}`, env, env, len(key)%3)
 		case strings.HasPrefix(r.URL.Path, "/1/batch/"):
 			cnt := 0
-			if r.Header.Get("Content-Encoding") == "zstd" {
+			fromNode := strings.HasPrefix(r.Header.Get("User-Agent"), "refinery/") // the node's upstream transmission, not a proxied request
+			if fromNode && r.Header.Get("Content-Encoding") == "zstd" {
 				if dec, err := verifkit.Decompress("zstd", body); err == nil {
 					body = dec
 				}
 			}
-			if len(body) > 0 {
+			if fromNode && len(body) > 0 {
 				switch c := body[0]; {
 				case c >= 0x90 && c <= 0x9f:
 					cnt = int(c & 0x0f)
@@ -266,9 +268,7 @@ func (n *c28Node) startSink() error {
 				}
 			}
 			cnt = min(cnt, 100_000) // proxied requests carry arbitrary bodies here
-			if strings.HasPrefix(r.Header.Get("User-Agent"), "refinery/") {
-				n.sinkEvents.Add(int64(cnt)) // sent by the node's upstream transmission
-			}
+			n.sinkEvents.Add(int64(cnt))
 			w.Header().Set("Content-Type", "application/json")
 			w.Write([]byte("[" + strings.TrimSuffix(strings.Repeat(`{"status":202},`, cnt), ",") + "]"))
 		default:
@@ -529,8 +529,12 @@ func TestVerif_C28RequestsChild(t *testing.T) {
 		t.Fatal(err)
 	}
 	// contain runaway allocations: a request of a few MB that makes the process map
-	// more than 16 GiB is a crash ("runtime: out of memory") on any host
-	_ = syscall.Setrlimit(syscall.RLIMIT_AS, &syscall.Rlimit{Cur: 4 << 30, Max: 4 << 30})
+	// more than this is a crash ("runtime: out of memory") on any realistic host
+	asLimit := uint64(16 << 30) // full-size stacks (1 GB, copied while growing) must fit
+	if batch.Scale > 1 {
+		asLimit = 4 << 30
+	}
+	_ = syscall.Setrlimit(syscall.RLIMIT_AS, &syscall.Rlimit{Cur: asLimit, Max: asLimit})
 	if batch.Scale > 1 {
 		debug.SetMaxStack(1_000_000_000 / batch.Scale)
 	}
@@ -552,7 +556,11 @@ func TestVerif_C28RequestsChild(t *testing.T) {
 	watchdog := time.Duration(batch.WatchdogMs) * time.Millisecond
 	for i := start; i <= until && i < len(batch.Requests); i++ {
 		wal.Begin(i)
-		note := node.send(&batch.Requests[i], watchdog)
+		wd := watchdog
+		if ms := batch.Requests[i].WatchdogMs; ms > 0 {
+			wd = time.Duration(ms) * time.Millisecond
+		}
+		note := node.send(&batch.Requests[i], wd)
 		if strings.HasPrefix(note, "HANG") {
 			buf := make([]byte, 1<<20)
 			buf = buf[:runtime.Stack(buf, true)]
@@ -2025,14 +2033,14 @@ func TestVerif_C28Requests(t *testing.T) {
 	run := verifkit.Start(t, "C28", "requests")
 	defer run.Finish()
 	run.Rule("seeded structure-aware hostile requests (no coverage guidance): every HTTP route (/1/events, /1/batch, /v1/traces, /v1/logs, /alive, /ready, /version, /panic, /query/*, proxied paths) x content types (JSON, msgpack, protobuf, OTLP JSON, wrong pairings) x encodings (none, gzip, zstd, label only, odd label, corrupt, double) with bodies that are valid-but-weird value trees (wrong-typed time/samplerate/data/trace id/meta fields, NaN, ext types, duplicate keys, huge maps), byte-mutated, truncated, random, huge declared lengths, moderately and maximally nested; hostile headers (API keys, sample rate, event time, dataset escapes, content-length mismatches, chunked, huge headers); gRPC trace/logs Export with raw payloads through a raw codec; both listeners. Every request is sent to a real node (validated config, real routers/collector/samplers/transmissions) in a child process; non-trivial = the node answered the request; distinct = distinct (route, listener, content, body class, encoding, outcome class)")
-	run.Assume("the child process limits its address space to 16 GiB (a request of a few MB that needs more is a crash: runtime out of memory)")
+	run.Assume("the child process limits its address space (4 GiB quick, 16 GiB thorough): a request of a few MB that needs more is a crash (runtime out of memory)")
 	run.Assume("quick tier: goroutine stacks are limited to 1/16 of the runtime default (62.5 MB instead of 1 GB) and maximal-nesting inputs are 1/16 of what the body size limits (5 MB libhoney, 20 MiB OTLP/HTTP, 15 MB gRPC) admit, assuming stack use linear in nesting depth; thorough tier: runtime default and full-size inputs")
 	run.Assume("a crash is attributed to the request named by the write-ahead log; when it does not reproduce with per-request draining the witness is the preceding window of requests")
 
 	scale, watchdog := 16, 10*time.Second
 	n, perBatch, extremes, lanes := 6000, 1000, 6, 3
 	if run.Thorough() {
-		scale, watchdog = 1, 300*time.Second
+		scale, watchdog = 1, 60*time.Second
 		n, perBatch, extremes, lanes = 300000, 5000, 20, 4
 	}
 	dir := run.OutDir()
@@ -2058,6 +2066,9 @@ func TestVerif_C28Requests(t *testing.T) {
 		}
 		r := g.next(slot)
 		r.Index = i
+		if slot >= 0 && run.Thorough() {
+			r.WatchdogMs = 600_000 // full-size maximal nesting takes the OTLP translator minutes
+		}
 		reqs = append(reqs, r)
 	})
 	if len(reqs) == 0 {
@@ -2154,6 +2165,10 @@ func TestVerif_C28Requests(t *testing.T) {
 					continue
 				}
 				if oc == "hang" {
+					if run.Counter("hangs_confirmed")+run.Counter("hangs_not_reproduced") >= 3 {
+						run.Count("hangs_not_replayed", 1) // bounded effort: only the first three hangs of a run are replayed
+						continue
+					}
 					// must reproduce alone 2/2 (the two confirmations run side by side)
 					var o2 [2]verifkit.ChildOutcome
 					var hw sync.WaitGroup
@@ -2161,7 +2176,7 @@ func TestVerif_C28Requests(t *testing.T) {
 						hw.Add(1)
 						go func(k int) {
 							defer hw.Done()
-							o2[k] = verifkit.RunChild(dir, c28ChildTest, bd.file, i, 3*watchdog+time.Minute, "VERIF_CHILD_ONLY=1")
+							o2[k] = verifkit.RunChild(dir, c28ChildTest, bd.file, i, 3*watchdog+15*time.Minute, "VERIF_CHILD_ONLY=1")
 						}(k)
 					}
 					hw.Wait()
@@ -2173,6 +2188,7 @@ func TestVerif_C28Requests(t *testing.T) {
 						}
 					}
 					if hung == 2 {
+						run.Count("hangs_confirmed", 1)
 						run.Violation("C28/requests/hang/"+site, fmt.Sprintf("request not answered within %s (still being processed in %s), reproduced alone 2/2", watchdog, site), c28Witness(r, map[string]any{"profile": bd.b.Profile}))
 					} else {
 						run.Count("hangs_not_reproduced", 1)
